@@ -195,6 +195,14 @@ class Check:
                 if obs.get("stage") != v: return False
             elif k == "observed_err":
                 if obs.get("err") not in (v if isinstance(v, list) else [v]): return False
+            elif k == "open_flags_lack_any":
+                if not any(f not in ev.get("flags", []) for f in v): return False
+            elif k == "expected_kind":
+                if exp.get("kind") not in (v if isinstance(v, list) else [v]): return False
+            elif k == "expected_consensus":
+                if exp.get("consensus") not in (v if isinstance(v, list) else [v]): return False
+            elif k == "id_contains":
+                if v not in div.get("id", ""): return False
             elif k == "kind":
                 if (job.kind if job is not None and hasattr(job, "kind") else ev.get("kind")) != v: return False
             elif k == "id_prefix":
@@ -217,7 +225,7 @@ class Check:
                     hit = f; break
             if hit:
                 self.known_hits[hit["id"]] = self.known_hits.get(hit["id"], 0) + 1
-                if d.get("id", "").startswith("probe:" + hit["id"]):
+                if d.get("id", "").startswith("probe:" + hit["id"]) or d.get("id", "") == hit.get("probe_id"):
                     self.probe_hits.add(hit["id"])
             else:
                 self.violations.append((d, job))
